@@ -224,7 +224,7 @@ def sweep_case(rng, mesh, sort):
 
 def run(ctx):
     quick = ctx.tier == "quick"
-    n_cases = 600 if quick else 6000
+    n_cases = 600 if quick else 4000
     max_faces = 80 if quick else 140
     ctx.rule = ("generated oriented manifold polygon surfaces (seeds triangle/quad/polygon/tetra/octahedron/cube/grid/"
                 "triangulated grid/annulus/torus/unions, random manifold-preserving edits, random renumbering, face rotation, "
